@@ -1057,11 +1057,13 @@ static void scan_file(struct snapraid_scan* scan, int is_diff, const char* sub, 
 				other_file = tommy_hashdyn_search(&other_disk->stampset, file_namestamp_compare, file, hash);
 			else
 				other_file = tommy_hashdyn_search(&other_disk->stampset, file_pathstamp_compare, file, hash);
-			stamp_unlock(other_disk);
 
 			verif_yield(20);
 
 			/* if found, and it's a fully hashed file */
+			/* note that we keep the lock until we have finished to use the other file, */
+			/* because the thread scanning the other disk removes a file from the stampset, */
+			/* always with the lock, before deallocating it */
 			if (other_file && file_is_full_hashed_and_stable(scan->state, other_disk, other_file)) {
 				/* assume that the file is a copy, and reuse the hash */
 				file_copy(other_file, file);
@@ -1077,9 +1079,13 @@ static void scan_file(struct snapraid_scan* scan, int is_diff, const char* sub, 
 				/* mark it as reported */
 				is_file_reported = 1;
 
+				stamp_unlock(other_disk);
+
 				/* no need to continue the search */
 				break;
 			}
+
+			stamp_unlock(other_disk);
 		}
 	}
 
@@ -1648,6 +1654,17 @@ static int state_diffscan(struct snapraid_state* state, int is_diff)
 
 		tommy_list_insert_tail(&scanlist, &scan->node, scan);
 	}
+
+#if HAVE_THREAD
+	/* enable the filesystem mutex in all disks, because when searching for copies */
+	/* the allocation trees of a disk are read also by the scan threads of the other disks */
+	if (!state->opt.skip_multi_scan) {
+		for (i = state->disklist; i != 0; i = i->next) {
+			struct snapraid_disk* disk = i->data;
+			disk_start_thread(disk);
+		}
+	}
+#endif
 
 	/* first scan all the directory and find new and deleted files */
 	for (i = scanlist; i != 0; i = i->next) {
